@@ -180,6 +180,34 @@ def arm_accounting(F, rep):
             inc = any(c in arm for c in counted)
             rep.ob("R2", f"{label}:counted", inc, "skipped row is counted" if inc else
                    f"{label} rows are dropped without incrementing the skipped count", b.loc(_first_sp(b, tgt)), key=f"R2:{label}:counted")
+    # dividends: amount from the row, withholding taken (consumed) from the first-pass map under the row's own (date, symbol)
+    for j, u, r in pushes:
+        row = tb.operand(u["args"][1])
+        if _is_variant(row, "Dividend"):
+            f = dict(row[3])
+            tax = f.get("tax")
+            amt = f.get("amount")
+            taken = [x for x in subterms(tax) if isinstance(x, tuple) and x and x[0] == "call" and "HashMap" in x[1]]
+            consumed = any(parse_callee(x[1])[2] in ("remove", "remove_entry") for x in taken)
+            key_ok = any(".date" in show(x[2][1]) and ".symbol" in show(x[2][1]) for x in taken if len(x[2]) == 2)
+            rep.ob("R2", "dividend:withholding-consumed-once", consumed and key_ok,
+                   "same-day withholding is removed from the map when it is attached to a dividend row (emitted at most once), keyed by the row's date and symbol"
+                   if consumed and key_ok else
+                   f"the dividend's tax is {show(tax)[:70]}: the withholding entry is not consumed (or not keyed by the row's date+symbol), "
+                   "so several dividend rows of one symbol/date each carry the full withholding and the total is inflated",
+                   b.loc(u["sp"]), key="R2:dividend:withholding-once")
+            a_ok = any(isinstance(x, tuple) and x and x[0] == "call" and parse_callee(x[1])[2] == "abs" for x in subterms(amt)) and "amount" in show(amt)
+            rep.ob("R2", "dividend:amount-from-row", a_ok, "dividend total is the row's own |Amount|" if a_ok else f"dividend amount is {show(amt)[:60]}",
+                   b.loc(u["sp"]), key="R2:dividend:amount")
+    # first pass: withholdings accumulate |amount| under (date, symbol)
+    wh = [(j, u) for j, u in b.calls() if is_dec_add(u["callee"])]
+    acc_ok = False
+    for j, u in wh:
+        rhs = tb.operand(u["args"][1])
+        if any(isinstance(x, tuple) and x and x[0] == "call" and parse_callee(x[1])[2] == "abs" for x in subterms(rhs)):
+            acc_ok = True
+    rep.ob("R2", "withholding:accumulated", acc_ok, "withholding rows are summed (absolute value) per key in the first pass" if acc_ok else
+           "no accumulation of withholding amounts found", b.loc(), key="R2:withholding:accumulate")
     # Unknown rows: comment + warning + count  (match on the outer item enum)
     unk = [(j, u) for j, u, r in pushes if _is_variant(tb.operand(u["args"][1]), "Comment")]
     rep.ob("R2", "unknown/unsupported→comment", len(unk) >= 2, f"{len(unk)} sites surface unsupported rows as comments" if len(unk) >= 2 else
@@ -249,6 +277,11 @@ def c18_upvar(t):
         if isinstance(y, tuple) and len(y) == 3 and y[0] == "field" and isinstance(y[1], tuple) and y[1] and y[1][0] == "param" and y[1][1] == 0:
             return True
     return False
+
+
+def is_dec_add(callee):
+    from mir import is_decimal_arith_assign
+    return is_decimal_arith_assign(callee) == "AddAssign"
 
 
 def _first_sp(b, bb):
